@@ -669,6 +669,47 @@ class Plan:
                         twins.append(c)
                     self.add_group("C16", twins, "contexts")
 
+    # -- B1b: t-wise coverage of the configuration space, enumerated by TLC from the resolution model (spec/CfgCover.tla):
+    # every legal configuration of at most two user features in every combination of their modes (+ a seeded sample of
+    # the triples; thorough: all triples), on one shape per class (gapless / holes; small only where the auto rule reads it)
+    def pairwise(self, n_triples):
+        rng = random.Random(f"pairwise:{self.seed}")
+        MODE = {"nab": "next_and_back", "inline": "table_inline"}
+        cov2 = stimuli.cfg_cover(2)
+        self.stim_stats["states"] += cov2["stats"]["distinct"]
+        self.stim_stats["transitions"] += cov2["stats"]["states"]
+        recs = list(cov2["cases"])
+        if n_triples:
+            cov3 = stimuli.cfg_cover(3)
+            self.stim_stats["states"] += cov3["stats"]["distinct"]
+            self.stim_stats["transitions"] += cov3["stats"]["states"]
+            tri = [c for c in cov3["cases"] if len(c["user"]) == 3]
+            recs += tri if n_triples >= len(tri) else rng.sample(tri, n_triples)
+        shapes = {(True, False): ("i16", [-3, -2, -1, 0, 1, 2, 3, 4, 5, 6]),               # gapless, negative minimum
+                  (False, False): ("i8", [-10, -5, -4, 3, 4, 5, 6, 7, 8, 20]),             # four runs, a later negative run
+                  (False, True): ("i8", [-7, -6, 2])}                                       # holes, num_values * size <= 8
+        for (gapless, small), (r, reals) in shapes.items():
+            mine = [c for c in recs if c["gapless"] == gapless and c["small"] == small]
+            vs = decorate(reals, r, rng, "renames", "shuffle", "dec")
+            p = prim.Proj(r, True)
+            pr = {p.model_tmin(), p.model_tmax()} | {p.to_model(x + d) for x in reals for d in (-1, 0, 1) if prim.tmin(r) <= x + d <= prim.tmax(r)}
+            script = make_script(vs, r, sorted(pr), rng, level="light", str_cap=10, pairs_cap=10, pow2=True)
+            cases = [self.new_case(r, vs, cfg_full(None, None, None, None), script, "pairwise:all")]
+            for c in mine:
+                want = {"as_str": c["am"], "from_str": c["fm"], "FromStr": c["tm"], "iter": c["im"]}
+                feats = []
+                for f in K_ALL:
+                    if f not in c["user"]:
+                        continue
+                    m = want.get(f)
+                    feats.append((f, {"mode": MODE.get(m, m)} if m and m != "auto" else {}))
+                lab = "+".join(f + (":" + want[f] if want.get(f, "auto") != "auto" else "") for f, _ in feats)
+                cs = self.new_case(r, vs, {"feats": feats, "split": "one"}, script, f"pairwise:{lab}")
+                cs["pow2"] = True
+                cases.append(cs)
+            cases[0]["pow2"] = True
+            self.add_group("C09", cases, "config_matrix")
+
     # -- B2: sorted(name) / sorted(value) must not change behaviour either (C09)
     def sorted_cfgs(self, n_decls):
         rng = self.rng
@@ -1132,6 +1173,7 @@ def build_plan(tier, seed):
         pl.sorted_cfgs(6)
         pl.names_fixed()
         pl.solo_cfgs()
+        pl.pairwise(250)
         pl.raw_idents()
         pl.alias_shapes()
         pl.perms_reprs(30)
@@ -1155,6 +1197,7 @@ def build_plan(tier, seed):
         pl.sorted_cfgs(60)
         pl.names_fixed()
         pl.solo_cfgs()
+        pl.pairwise(1 << 30)
         pl.raw_idents()
         pl.alias_shapes()
         pl.perms_reprs(150)
